@@ -1,10 +1,21 @@
+/-
+C18 — helper lemmas: the `Except` monad, checked reads/writes on a suffix (`b.drop i = x :: l`) and
+on a zipper (`A ++ y :: B`), splitting a destination into prefix / extent / rest, and one lemma per
+loop of the model.  Property theorems are in `Props.lean`.
+-/
 import Tetl.C18.Model
 import Tetl.C18.Spec
 namespace Tetl.C18
 open Tetl
 
-/-- finite-domain transfer: a Boolean statement that evaluates to `true` at every point of
-    `-1, 0, …, 255` holds for every `Int` in `[-1, 255]` -/
+@[simp] theorem ok_bind {ε α β} (a : α) (f : α → Except ε β) : (Except.ok a >>= f) = f a := rfl
+@[simp] theorem error_bind {ε α β} (e : ε) (f : α → Except ε β) : (Except.error e >>= f) = Except.error e := rfl
+@[simp] theorem pure_eq_ok {ε α} (a : α) : (pure a : Except ε α) = Except.ok a := rfl
+
+/-! ### finite-domain transfer for cctype / cwctype -/
+
+/-- a Boolean statement that evaluates to `true` at every point of `-1, 0, …, 255` holds for every
+    `Int` in `[-1, 255]` -/
 theorem forall_ctype_range {p : Int → Bool} (h : (List.range 257).all (fun n => p ((n : Int) - 1)) = true) :
     ∀ c : Int, -1 ≤ c → c ≤ 255 → p c = true := by
   intro c h1 h2
@@ -12,5 +23,301 @@ theorem forall_ctype_range {p : Int → Bool} (h : (List.range 257).all (fun n =
   have := h (c + 1).toNat (by simp; omega)
   have e : (((c + 1).toNat : Nat) : Int) - 1 = c := by omega
   rwa [e] at this
+
+theorem forall_lt_of_all {p : Nat → Bool} (N : Nat) (h : (List.range N).all p = true) :
+    ∀ c, c < N → p c = true := by
+  intro c hc
+  rw [List.all_eq_true] at h
+  exact h c (by simpa using hc)
+
+theorem contains_high (t : List Nat) (ht : t.all (· < 128) = true) (c : Nat) (hc : 128 ≤ c) :
+    t.contains c = false := by
+  rw [List.all_eq_true] at ht
+  cases h : t.contains c with
+  | false => rfl
+  | true =>
+    have hm : c ∈ t := by simpa using h
+    have := ht c hm
+    simp at this; omega
+
+theorem mapTbl_high (src dst : List Nat) (ht : src.all (· < 128) = true) (c : Nat) (hc : 128 ≤ c) :
+    Spec.mapTbl src dst c = c := by
+  rw [List.all_eq_true] at ht
+  have : (src.zip dst).find? (fun pr => pr.1 == c) = none := by
+    rw [List.find?_eq_none]
+    intro pr hpr
+    have h1 := ht pr.1 (List.of_mem_zip hpr).1
+    simp at h1 ⊢; omega
+  simp [Spec.mapTbl, this]
+
+/-! ### checked reads and writes -/
+
+theorem rd_of_drop_cons {α} {b : List α} {i : Nat} {x : α} {l : List α} (h : b.drop i = x :: l) : rd b i = .ok x := by
+  have hi : i < b.length := by
+    by_cases hi : i < b.length
+    · exact hi
+    · rw [List.drop_eq_nil_of_le (by omega)] at h; cases h
+  rw [List.drop_eq_getElem_cons hi] at h
+  injection h with h1 _
+  simp [rd, hi, h1]
+
+theorem drop_succ_of_drop_cons {α} {b : List α} {i : Nat} {x : α} {l : List α} (h : b.drop i = x :: l) :
+    b.drop (i + 1) = l := by
+  have : b.drop (i + 1) = (b.drop i).drop 1 := by rw [List.drop_drop]
+  rw [this, h]; rfl
+
+theorem rd_of_drop_nil {α} {b : List α} {i : Nat} (h : b.drop i = []) : rd b i = .error .oob := by
+  have : b.length ≤ i := by simpa using h
+  simp [rd, this]
+
+theorem wr_zip (A : Buf) (y : Nat) (B : Buf) (v : Nat) : wr (A ++ y :: B) A.length v = .ok (A ++ v :: B) := by
+  simp [wr]
+
+theorem wr_zip' (A : Buf) (y : Nat) (B : Buf) (v : Nat) (d : Nat) (hd : d = A.length) :
+    wr (A ++ y :: B) d v = .ok (A ++ v :: B) := by subst hd; exact wr_zip A y B v
+
+/-- a destination with room for `k` units at offset `d` is prefix ++ extent ++ rest -/
+theorem dst_decomp (dst : Buf) (d k : Nat) (h : d + k ≤ dst.length) :
+    dst = dst.take d ++ ((dst.drop d).take k ++ dst.drop (d + k)) ∧ (dst.take d).length = d ∧
+      ((dst.drop d).take k).length = k := by
+  refine ⟨?_, ?_, ?_⟩
+  · rw [← List.drop_drop, List.take_append_drop, List.take_append_drop]
+  · simp; omega
+  · simp; omega
+
+theorem splice_zip (A M B w : Buf) (h : M.length = w.length) :
+    Spec.splice (A ++ (M ++ B)) A.length w = A ++ (w ++ B) := by
+  simp [Spec.splice, ← h, List.append_assoc]
+
+/-! ### strings inside an allocation -/
+
+theorem cstr_of_drop {b : Buf} {p : Nat} {l : List Nat} (h : b.drop p = l) : Spec.cstr b p = l.takeWhile (· ≠ 0) := by
+  simp [Spec.cstr, h]
+
+/-! ### one lemma per loop -/
+
+theorem mem_tail_of_ne {x : Nat} {l : List Nat} (h0 : 0 ∈ x :: l) (hx : ¬ x = 0) : 0 ∈ l := by
+  rcases List.mem_cons.mp h0 with h | h
+  · exact absurd h.symm hx
+  · exact h
+
+theorem exists_decomp (dst : Buf) (d k : Nat) (h : d + k ≤ dst.length) :
+    ∃ A M B : Buf, dst = A ++ (M ++ B) ∧ A.length = d ∧ M.length = k :=
+  ⟨_, _, _, (dst_decomp dst d k h).1, (dst_decomp dst d k h).2.1, (dst_decomp dst d k h).2.2⟩
+
+theorem exists_snoc (M : Buf) (k : Nat) (h : M.length = k + 1) : ∃ M1 y, M = M1 ++ [y] ∧ M1.length = k := by
+  have hne : M ≠ [] := by intro e; simp [e] at h
+  refine ⟨M.dropLast, M.getLast hne, (List.dropLast_concat_getLast hne).symm, ?_⟩
+  simp [h]
+
+/-- the counted copy loop of `strncpy` -/
+theorem strncpyCopy_spec (src : Buf) : ∀ (r : Nat) (l : List Nat) (s : Nat) (A M1 R : Buf) (d : Nat), src.drop s = l →
+    (r ≤ l.length ∨ 0 ∈ l) → d = A.length → M1.length = ((l.take r).takeWhile (· ≠ 0)).length →
+    strncpyCopy src r (A ++ (M1 ++ R)) d s =
+      .ok (A ++ ((l.take r).takeWhile (· ≠ 0) ++ R), d + ((l.take r).takeWhile (· ≠ 0)).length,
+           r - ((l.take r).takeWhile (· ≠ 0)).length) := by
+  intro r
+  induction r with
+  | zero =>
+    intro l s A M1 R d _ _ _ hM
+    simp at hM
+    simp [strncpyCopy, hM]
+  | succ r ih =>
+    intro l s A M1 R d hd hr hA hM
+    cases l with
+    | nil => rcases hr with h | h <;> simp at h
+    | cons x l =>
+      simp only [strncpyCopy, rd_of_drop_cons hd, ok_bind]
+      by_cases hx : x = 0
+      · subst hx
+        simp at hM
+        simp [hM]
+      · cases M1 with
+        | nil => simp [hx] at hM
+        | cons y M1 =>
+          have hr' : r ≤ l.length ∨ 0 ∈ l := by
+            rcases hr with h | h
+            · left; simpa using h
+            · right; exact mem_tail_of_ne h hx
+          have hM' : M1.length = ((l.take r).takeWhile (· ≠ 0)).length := by simpa [hx] using hM
+          have := ih l (s + 1) (A ++ [x]) M1 R (d + 1) (drop_succ_of_drop_cons hd) hr' (by simp [hA]) hM'
+          simp only [List.append_assoc, List.singleton_append] at this
+          rw [if_neg hx]
+          simp only [List.cons_append, wr_zip' A y (M1 ++ R) x d hA, ok_bind]
+          rw [this]
+          simp [hx]
+          omega
+
+theorem fillLoop_spec (v : Nat) : ∀ (r : Nat) (A M B : Buf) (d : Nat), d = A.length → M.length = r →
+    fillLoop v r (A ++ (M ++ B)) d = .ok (A ++ (List.replicate r v ++ B)) := by
+  intro r
+  induction r with
+  | zero => intro A M B d _ hM; simp at hM; simp [fillLoop, hM]
+  | succ r ih =>
+    intro A M B d hA hM
+    cases M with
+    | nil => simp at hM
+    | cons y M =>
+      have := ih (A ++ [v]) M B (d + 1) (by simp [hA]) (by simpa using hM)
+      simp only [List.append_assoc, List.singleton_append] at this
+      simp only [fillLoop, List.cons_append, wr_zip' A y (M ++ B) v d hA, ok_bind, this, List.replicate_succ]
+
+theorem memcpyLoop_spec (src : Buf) : ∀ (r : Nat) (l : List Nat) (s : Nat) (A M B : Buf) (d : Nat), src.drop s = l →
+    r ≤ l.length → d = A.length → M.length = r →
+    memcpyLoop src r (A ++ (M ++ B)) d s = .ok (A ++ (l.take r ++ B)) := by
+  intro r
+  induction r with
+  | zero => intro l s A M B d _ _ _ hM; simp at hM; simp [memcpyLoop, hM]
+  | succ r ih =>
+    intro l s A M B d hd hr hA hM
+    cases l with
+    | nil => simp at hr
+    | cons x l =>
+      cases M with
+      | nil => simp at hM
+      | cons y M =>
+        have := ih l (s + 1) (A ++ [x]) M B (d + 1) (drop_succ_of_drop_cons hd) (by simpa using hr) (by simp [hA])
+          (by simpa using hM)
+        simp only [List.append_assoc, List.singleton_append] at this
+        simp only [memcpyLoop, rd_of_drop_cons hd, ok_bind, List.cons_append, wr_zip' A y (M ++ B) x d hA, this,
+          List.take_succ_cons]
+
+theorem strcatLoop_spec (src : Buf) : ∀ (l : List Nat) (s f : Nat) (A M1 R : Buf) (d : Nat), src.drop s = l → 0 ∈ l →
+    l.length < f → d = A.length → M1.length = (l.takeWhile (· ≠ 0)).length →
+    strcatLoop src f (A ++ (M1 ++ R)) d s = .ok (A ++ (l.takeWhile (· ≠ 0) ++ R), d + (l.takeWhile (· ≠ 0)).length) := by
+  intro l
+  induction l with
+  | nil => intro s f A M1 R d _ h0; simp at h0
+  | cons x l ih =>
+    intro s f A M1 R d hd h0 hf hA hM
+    cases f with
+    | zero => simp at hf
+    | succ f =>
+      simp only [strcatLoop, rd_of_drop_cons hd, ok_bind]
+      by_cases hx : x = 0
+      · subst hx
+        simp at hM
+        simp [hM]
+      · cases M1 with
+        | nil => simp [hx] at hM
+        | cons y M1 =>
+          have hM' : M1.length = (l.takeWhile (· ≠ 0)).length := by simpa [hx] using hM
+          have := ih (s + 1) f (A ++ [x]) M1 R (d + 1) (drop_succ_of_drop_cons hd) (mem_tail_of_ne h0 hx)
+            (by simpa using hf) (by simp [hA]) hM'
+          simp only [List.append_assoc, List.singleton_append] at this
+          rw [if_neg hx]
+          simp only [List.cons_append, wr_zip' A y (M1 ++ R) x d hA, ok_bind]
+          rw [this]
+          simp [hx]
+          omega
+
+theorem strncatLoop_spec (src : Buf) : ∀ (r : Nat) (l : List Nat) (s : Nat) (A M1 R : Buf) (d : Nat), src.drop s = l →
+    (r ≤ l.length ∨ 0 ∈ l) → d = A.length → M1.length = ((l.take r).takeWhile (· ≠ 0)).length →
+    strncatLoop src r (A ++ (M1 ++ R)) d s =
+      .ok (A ++ ((l.take r).takeWhile (· ≠ 0) ++ R), d + ((l.take r).takeWhile (· ≠ 0)).length) := by
+  intro r
+  induction r with
+  | zero =>
+    intro l s A M1 R d _ _ _ hM
+    simp at hM
+    simp [strncatLoop, hM]
+  | succ r ih =>
+    intro l s A M1 R d hd hr hA hM
+    cases l with
+    | nil => rcases hr with h | h <;> simp at h
+    | cons x l =>
+      simp only [strncatLoop, rd_of_drop_cons hd, ok_bind]
+      by_cases hx : x = 0
+      · subst hx
+        simp at hM
+        simp [hM]
+      · cases M1 with
+        | nil => simp [hx] at hM
+        | cons y M1 =>
+          have hr' : r ≤ l.length ∨ 0 ∈ l := by
+            rcases hr with h | h
+            · left; simpa using h
+            · right; exact mem_tail_of_ne h hx
+          have hM' : M1.length = ((l.take r).takeWhile (· ≠ 0)).length := by simpa [hx] using hM
+          have := ih l (s + 1) (A ++ [x]) M1 R (d + 1) (drop_succ_of_drop_cons hd) hr' (by simp [hA]) hM'
+          simp only [List.append_assoc, List.singleton_append] at this
+          rw [if_neg hx]
+          simp only [List.cons_append, wr_zip' A y (M1 ++ R) x d hA, ok_bind]
+          rw [this]
+          simp [hx]
+          omega
+
+theorem strlenLoop_spec (b : Buf) : ∀ (l : List Nat) (i f : Nat), b.drop i = l → 0 ∈ l → l.length < f →
+    strlenLoop b f i = .ok (i + (l.takeWhile (· ≠ 0)).length) := by
+  intro l
+  induction l with
+  | nil => intro i f _ h0; simp at h0
+  | cons x l ih =>
+    intro i f hd h0 hf
+    cases f with
+    | zero => simp at hf
+    | succ f =>
+      simp only [strlenLoop, rd_of_drop_cons hd, ok_bind]
+      by_cases hx : x = 0
+      · simp [hx]
+      · have h0' : 0 ∈ l := by
+          rcases List.mem_cons.mp h0 with h | h
+          · exact absurd h.symm hx
+          · exact h
+        rw [if_neg hx, ih (i+1) f (drop_succ_of_drop_cons hd) h0' (by simpa using hf)]
+        simp [hx]; omega
+
+theorem strcpyLoop_spec (src : Buf) : ∀ (l : List Nat) (s f : Nat) (A M B : Buf) (d : Nat), src.drop s = l → 0 ∈ l →
+    l.length < f → d = A.length → M.length = (l.takeWhile (· ≠ 0)).length + 1 →
+    strcpyLoop src f (A ++ (M ++ B)) d s = .ok (A ++ ((l.takeWhile (· ≠ 0) ++ [0]) ++ B)) := by
+  intro l
+  induction l with
+  | nil => intro s f A M B d _ h0; simp at h0
+  | cons x l ih =>
+    intro s f A M B d hd h0 hf hA hM
+    cases f with
+    | zero => simp at hf
+    | succ f =>
+      cases M with
+      | nil => simp at hM
+      | cons y M =>
+        simp only [strcpyLoop, rd_of_drop_cons hd, ok_bind, List.cons_append, wr_zip' A y (M ++ B) x d hA]
+        by_cases hx : x = 0
+        · subst hx
+          simp at hM
+          simp [hM]
+        · have h0' : 0 ∈ l := by
+            rcases List.mem_cons.mp h0 with h | h
+            · exact absurd h.symm hx
+            · exact h
+          have hM' : M.length = (l.takeWhile (· ≠ 0)).length + 1 := by simpa [hx] using hM
+          have := ih (s + 1) f (A ++ [x]) M B (d + 1) (drop_succ_of_drop_cons hd) h0' (by simpa using hf) (by simp [hA]) hM'
+          rw [if_neg hx]
+          simp only [List.append_assoc, List.singleton_append] at this
+          rw [this]
+          simp [hx]
+
+
+/-! ### small facts used by the property theorems -/
+
+theorem drop_length_lt (b : Buf) (p : Nat) : (b.drop p).length < b.length + 1 := by simp; omega
+
+theorem length_takeWhile_le {α} (p : α → Bool) (l : List α) : (l.takeWhile p).length ≤ l.length :=
+  (List.takeWhile_sublist p).length_le
+
+theorem length_cstrN_le (b : Buf) (p n : Nat) : (Spec.cstrN b p n).length ≤ n := by
+  unfold Spec.cstrN
+  exact Nat.le_trans (length_takeWhile_le _ _) (by simp; omega)
+
+theorem readableN_drop {b : Buf} {p n : Nat} (h : Spec.ReadableN b p n) : n ≤ (b.drop p).length ∨ 0 ∈ b.drop p := by
+  unfold Spec.ReadableN Spec.Terminated at h
+  simp only [List.length_drop]
+  rcases h with h | h
+  · left; omega
+  · right; exact h
+
+theorem exists_split (M : Buf) (a b : Nat) (h : M.length = a + b) :
+    ∃ M1 M2 : Buf, M = M1 ++ M2 ∧ M1.length = a ∧ M2.length = b :=
+  ⟨M.take a, M.drop a, (List.take_append_drop a M).symm, by simp; omega, by simp; omega⟩
 
 end Tetl.C18
